@@ -141,6 +141,7 @@ def plan(prop, tier):
         P += S("release", "zst", depth=4 if q else 5, shards=1 if q else 4) + S("debug", "zst", depth=3 if q else 4)
         P += S("release", "plain", n=300 if q else 3000, shards=2) + S("debug", "plain", n=100 if q else 600)
         P += S("debug", "limits", n=60 if q else 300) + S("release", "limits", n=60 if q else 300)
+        P += S("release", "ladder", n=6, shards=2 if q else 4, keys=3000 if q else 20000, timeout=2400)
         P += S("release", "sweep", shards=2 if q else 6, maxlen=140 if q else 1000, dense=130 if q else 300, timeout=1800)
     elif prop == "C02":
         P += S("release", "ladder", n=6, shards=8 if q else 14, keys=20000 if q else 200000, timeout=2400)
@@ -160,6 +161,7 @@ def plan(prop, tier):
         P += S("debug", "sweep", shards=2, maxlen=120 if q else 300, dense=60 if q else 130, timeout=1800)
         P += S("release", "hist", n=6000 if q else 40000, shards=4, profile="headroom")
         P += S("release", "prefix", n=150 if q else 1500, shards=2 if q else 8)
+        P += S("release", "ladder", n=6, shards=2 if q else 4, keys=3000 if q else 20000, timeout=2400)
     elif prop == "C05":
         for fl in ["release", "debug", "asan"] + ([] if q else ["msan", "valgrind"]):
             P += S(fl, "sentinels")
@@ -183,6 +185,7 @@ def plan(prop, tier):
         P += S("asan", "hist", n=800 if q else 10000, shards=3, profile="ub", timeout=1800)
         P += S("release", "sets", n=300 if q else 4000, shards=2)
         P += S("release", "chains", shards=2, stride=40 if q else 6)
+        P += S("release", "limits", n=100 if q else 1000)
         P += S("miri", "hist", n=5 if q else 40, shards=3 if q else 8, profile="drops", timeout=3000, leaks_ok=True)
     elif prop == "C07":
         P += S("release", "fault", n=200 if q else 7000, shards=8 if q else 12, timeout=5400)
